@@ -40,15 +40,27 @@ class AtomicTransaction(StoreTransaction):
         """SQLite transactions provide true database-level atomicity."""
         return True
 
-    def __init__(self, conn: sqlite3.Connection, store: SqliteWorkflowStore) -> None:
+    def __init__(
+        self,
+        conn: sqlite3.Connection,
+        store: SqliteWorkflowStore,
+        queue_max_attempts: int | None = None,
+    ) -> None:
         """Initialize atomic transaction.
 
         Args:
             conn: SQLite connection (will not auto-commit)
             store: Parent store for helper methods
+            queue_max_attempts: Attempt limit of the queue the messages are
+                pushed to; rows inserted here must carry the same limit as
+                rows inserted by SqliteQueue.push, or the DLQ sweep (which
+                compares with the row's own limit) never moves a message
+                that poll_one (which uses the queue's limit) stopped
+                delivering.
         """
         self._conn = conn
         self._store = store
+        self._queue_max_attempts = queue_max_attempts
         # Track stage objects and their original versions for rollback
         self._staged_objects: list[tuple[StageExecution | TaskExecution, int]] = []
 
@@ -231,7 +243,11 @@ class AtomicTransaction(StoreTransaction):
                 "message_type": message_type,
                 "payload": payload,
                 "deliver_at": deliver_at.isoformat(),
-                "max_attempts": getattr(message, "max_attempts", 10),
+                "max_attempts": (
+                    self._queue_max_attempts
+                    if self._queue_max_attempts is not None
+                    else getattr(message, "max_attempts", 10)
+                ),
             },
         )
 
